@@ -44,16 +44,16 @@ func cursorDocs(ctx context.Context, csr lungo.ICursor) ([]bson.D, error) {
 	return out, nil
 }
 
-func singleRes(sr lungo.ISingleResult) model.Res {
+func singleRes(sr lungo.ISingleResult) (model.Res, error) {
 	var d bson.D
 	err := sr.Decode(&d)
 	if errors.Is(err, lungo.ErrNoDocuments) {
-		return model.Res{NoDoc: true}
+		return model.Res{NoDoc: true}, nil
 	}
 	if err != nil {
-		return model.Res{Err: errClass(err)}
+		return model.Res{Err: errClass(err)}, err
 	}
-	return model.Res{Docs: []bson.D{d}}
+	return model.Res{Docs: []bson.D{d}}, nil
 }
 
 // nonNil turns a nil document into an empty one (the driver API panics on nil filters).
@@ -121,8 +121,7 @@ func drive(ctx context.Context, client lungo.IClient, op *Op) (res model.Res, er
 		if op.Skip > 0 {
 			o.SetSkip(int64(op.Skip))
 		}
-		r := singleRes(coll.FindOne(ctx, nonNil(op.F.doc()), o))
-		return r, nil
+		return singleRes(coll.FindOne(ctx, nonNil(op.F.doc()), o))
 	case "count":
 		o := options.Count()
 		if op.Skip > 0 {
@@ -190,7 +189,7 @@ func drive(ctx context.Context, client lungo.IClient, op *Op) (res model.Res, er
 		if op.P != nil {
 			o.SetProjection(op.P.doc())
 		}
-		return singleRes(coll.FindOneAndUpdate(ctx, nonNil(op.F.doc()), op.U.doc(), o)), nil
+		return singleRes(coll.FindOneAndUpdate(ctx, nonNil(op.F.doc()), op.U.doc(), o))
 	case "findOneAndReplace":
 		o := options.FindOneAndReplace().SetUpsert(op.Upsert)
 		if op.After {
@@ -202,7 +201,7 @@ func drive(ctx context.Context, client lungo.IClient, op *Op) (res model.Res, er
 		if op.P != nil {
 			o.SetProjection(op.P.doc())
 		}
-		return singleRes(coll.FindOneAndReplace(ctx, nonNil(op.F.doc()), op.D.doc(), o)), nil
+		return singleRes(coll.FindOneAndReplace(ctx, nonNil(op.F.doc()), op.D.doc(), o))
 	case "findOneAndDelete":
 		o := options.FindOneAndDelete()
 		if op.S != nil {
@@ -211,7 +210,7 @@ func drive(ctx context.Context, client lungo.IClient, op *Op) (res model.Res, er
 		if op.P != nil {
 			o.SetProjection(op.P.doc())
 		}
-		return singleRes(coll.FindOneAndDelete(ctx, nonNil(op.F.doc()), o)), nil
+		return singleRes(coll.FindOneAndDelete(ctx, nonNil(op.F.doc()), o))
 	case "bulk":
 		var models []mongo.WriteModel
 		for i := range op.Items {
@@ -337,7 +336,7 @@ func isWrite(k string) bool {
 
 // applyModel executes the same operation on the reference model. impl is the
 // implementation's result (source of generated ids).
-func applyModel(st *model.State, op *Op, impl *model.Res, now time.Time) model.Res {
+func applyModel(st *model.State, op *Op, impl *model.Res, now time.Time, lastID any) model.Res {
 	gen := func(k int) any {
 		if impl != nil {
 			if op.K == "bulk" {
@@ -347,6 +346,10 @@ func applyModel(st *model.State, op *Op, impl *model.Res, now time.Time) model.R
 			} else if k < len(impl.IDs) {
 				return impl.IDs[k]
 			}
+		}
+		if lastID != nil && (op.K == "findOneAndUpdate" || op.K == "findOneAndReplace") {
+			// these calls do not report the id they generated: an upserted document is the newest one
+			return lastID
 		}
 		return "<<no-generated-id>>"
 	}
